@@ -49,6 +49,8 @@ class A:
     def cpp(self):
         if self.k == 1 and self.ident == 2:
             return "drv::throw_acc<%s>" % self.el()
+        if self.k == 1 and self.ident == 3:
+            return "drv::value_acc<%s>" % self.el()
         return ("Kokkos::default_accessor<%s>" % self.el()) if self.k == 0 else "drv::user_acc<%s, %d>" % (self.el(), self.ident)
     def toks(self):
         return [self.k, self.base, int(self.const), self.ident]
@@ -111,7 +113,7 @@ def rand_acc(rng, near=None):
     if near is not None and rng.random() < 0.8:
         return A(near.k if rng.random() < 0.85 else 1 - near.k, near.base if rng.random() < 0.85 else 1 - near.base,
                  (near.const or rng.random() < 0.5) if rng.random() < 0.8 else False, near.ident if rng.random() < 0.7 else 1)
-    return A(0 if rng.random() < 0.75 else 1, rng.randrange(2), rng.random() < 0.4, rng.randrange(3))
+    return A(0 if rng.random() < 0.75 else 1, rng.randrange(2), rng.random() < 0.4, rng.randrange(4))
 
 
 def rand_mds(rng, near=None):
